@@ -92,6 +92,7 @@ extra = {
  "C07": " Added later: fail-fast stages fed by a producer that never closes its channel (the stage must close at the failure, not when the input ends).",
  "C08": " Added later: bursts of 2 (thorough: 3) sends completed into the buffer before the pump first runs, cancel at any step.",
  "C09": " ForEach is also run with Try/Lift of a function failing on an uninterpreted set (the outcome is ignored as in pipe.ForEach: every element still applied once).",
+ "C10": " The carriers are value types (uint8/int): a monoid whose Combine mutates a reference-typed argument in place is outside the claim.",
  "C12": " One configuration calls Join with a spread slice that the caller overwrites right after the call.",
  "C13": " Includes ops=2 with an interval that ops does not divide.",
  "C14": " Added later: the depth-3 trees along the left spine (right operand of every Plus a leaf, leaves of 0..1 elements, Join(Join(..)) excluded).",
